@@ -378,3 +378,9 @@ fn load_plugins(config: &Config, state: Arc<AppState>) -> Result<usize, ()> {
 
     Ok(manager.plugin_count())
 }
+
+/// Verification hook (only compiled with the `verif` feature): exposes the private connection condition.
+#[cfg(feature = "verif")]
+pub fn verif_verify_connection(stream: &mut TcpStream, state: Arc<AppState>) -> bool {
+    verify_connection(stream, state)
+}
